@@ -429,6 +429,16 @@ func (s *Server) processDHCPAddrs(dctx *dnsContext) (rc resultCode) {
 
 	log.Debug("dnsforward: dhcp client %s is %q", addr, host)
 
+	// A lease name is only validated as a hostname on its own.  With the local
+	// domain appended it may not fit into a domain name any more, and a
+	// response with such a name can't be parsed by the client.
+	target := strings.Join([]string{host, s.localDomainSuffix}, ".")
+	if err := netutil.ValidateDomainName(target); err != nil {
+		log.Debug("dnsforward: dhcp client %s: not answering with its name: %s", addr, err)
+
+		return resultCodeSuccess
+	}
+
 	resp := s.replyCompressed(req)
 	ptr := &dns.PTR{
 		Hdr: dns.RR_Header{
@@ -439,7 +449,7 @@ func (s *Server) processDHCPAddrs(dctx *dnsContext) (rc resultCode) {
 			Ttl:   s.dnsFilter.BlockedResponseTTL(),
 			Class: dns.ClassINET,
 		},
-		Ptr: dns.Fqdn(strings.Join([]string{host, s.localDomainSuffix}, ".")),
+		Ptr: dns.Fqdn(target),
 	}
 	resp.Answer = append(resp.Answer, ptr)
 	pctx.Res = resp
